@@ -1,3 +1,4 @@
 import LC.Props.C20Heap
 import LC.Props.C20Sets
 import LC.Props.C20SetsAlgebra
+import LC.Props.C20HeapSort
